@@ -5,7 +5,7 @@ from props.c01 import relabel_stream
 
 EX_SRCS = ["probe_ex.c", "probe_reg.c", REPO + "/sbuf.c", REPO + "/regex.c", REPO + "/rset.c", REPO + "/rstr.c",
            REPO + "/uc.c", REPO + "/syn.c", REPO + "/conf.c", REPO + "/tag.c", REPO + "/cmd.c"]
-EX_FLAGS = ["-fwrapv", "-Wl,--wrap=open,--wrap=write,--wrap=close,--wrap=stat"]
+EX_FLAGS = ["-fwrapv", "-Wl,--wrap=open,--wrap=write,--wrap=close,--wrap=stat,--wrap=execvp"]
 
 def build(wd):
     return build_harness(wd, "probe_ex", EX_SRCS, extra=EX_FLAGS)
